@@ -18,7 +18,12 @@ for m in MUTANTS:
         s = open(p).read()
         if m['old'] not in s:
             res.append((m['id'], 'PATCH-DOES-NOT-APPLY')); print(res[-1]); continue
-        open(p, 'w').write(s.replace(m['old'], m['new'], 1))
+        s = s.replace(m['old'], m['new'], 1)
+        if 'old2' in m:
+            if m['old2'] not in s:
+                res.append((m['id'], 'PATCH-DOES-NOT-APPLY')); print(res[-1]); continue
+            s = s.replace(m['old2'], m['new2'], 1)
+        open(p, 'w').write(s)
         t = time.time()
         env = dict(os.environ, VERIF_REPO=wt)
         pr = subprocess.run(['/verif/check', m['prop'], '--no-evidence', '--no-selftest', '--runs', runs[m['prop']]],
